@@ -812,6 +812,7 @@ func runC20(c *Ctx) {
 		}
 	}
 	clauseParsedPrefetchSizeAdopted(c, "C20.h")
+	clauseEmptyURLLabelIsNoURL(c, "C20.j")
 	clauseLoopGoroutinesOwnTheirVars(c, "C20.i", [][2]string{{"snapshot", "(*snapshotter).checkAvailability"}})
 	c.assume("containerd copies descriptor annotations with the containerd.io/snapshot/ prefix into snapshot labels unchanged")
 }
